@@ -328,7 +328,7 @@ def run(tier: str, seed: int) -> dict:
         n_img = 1
     else:
         pipes = [fam[i] for i in rng.permutation(len(fam))]  # unbiased if the time budget cuts the enumeration
-        n_img = 1
+        n_img = 2
     seen = set()
     t_start, budget = time.time(), (65.0 if tier == "quick" else 1020.0)
     done = 0
